@@ -225,6 +225,7 @@ def run_c03(ctx):
     vac = None
     if r["valid"] < 100 or r["invalid"] < 100 or r["refused"] < 50 or len(r["by_type"]) < 8:
         vac = "vacuous exploration: %s" % r["by_type"]
+    cov["bounds"].append('wide transactions: 300-input spends with the spending input at 127/128/255/256/257/260/299 and 300-output funding transactions with the spent output at 255/256/258/299, for P2PKH, P2SH multisig, P2WPKH, P2WSH, P2SH-P2WPKH (hash types ALL and SINGLE|ANYONECANPAY), automatic and explicit selection, the selection pos-256 (must be refused), the sequence of input pos-256 altered after signing')
     return dict(level="model_checking", coverage=cov, violations=r["violations"],
                 assumptions=["verdict oracle: verify_input() of the reference model (self-tested on six real-chain spends); set-up oracle: the reference session plan (input, amount, sigversion, scripts per phase, initial stack, every micro-step state)",
                              "the session counts as valid iff it finishes without error and its final stack is non-empty with a true top element and exactly one element for witness scripts or under CLEANSTACK (the property's wording)",
@@ -276,6 +277,7 @@ def run_c02(ctx):
     }
     need = {"OK", "SIG_DER", "SIG_HIGH_S", "SIG_HASHTYPE", "PUBKEYTYPE", "WITNESS_PUBKEYTYPE", "SIG_NULLFAIL", "SIG_NULLDUMMY", "SIG_FINDANDDELETE", "invalid"}
     missing = sorted(need - set(o.keys()))
+    cov["bounds"].append('lengths across the one-byte compact-size boundary inside the digests: script codes of every length 236..274 (whole script and the part after a code separator) x {ALL, SINGLE|ANYONECANPAY} x {BASE, V0} x {NONE, STANDARD}; transactions of 252/253/254/300 inputs or outputs signing input 0/100/251/252/253/260 x 6 hash types; tapscript leaves of every length 242..262; annexes of 252/253/254/300/65535/65536 bytes on key and script path')
     return dict(level="model_checking", coverage=cov, violations=r["violations"],
                 assumptions=["signer and verifier: reftx (legacy/BIP143/BIP341 digests) + refec (OpenSSL EC arithmetic), self-tested on BIP340 vectors and six real-chain spends",
                              "taproot is restricted to single-input transactions (the tool receives one funding transaction); on the key path only accept/reject is compared (the tool has no error sink there)",
@@ -294,6 +296,7 @@ def run_c11(ctx):
         "bounds": ["every ordered list of 1..%d pairs over {s1,s2} x {p1,p2} (duplicates, one signature for two keys, one key with two signatures) x {BASE, WITNESS_V0} x with/without a transaction x {NONE, STANDARD}: each listed pair in CHECKSIG, CHECKSIGVERIFY, 1-of-1 and 1-of-2 multisig; an unlisted signature for each mocked key; non-interference on 4 templates signed by unlisted keys and a listed signature offered to an unlisted key; 10 malformed / edge-case list spellings" % (2 if ctx.tier == "quick" else 3)],
         "outcome_histogram": r["outcomes"], "signature_checks_accepting": r["signature_checks_accepting"], "signature_checks_rejecting": r["signature_checks_rejecting"],
     }
+    cov["bounds"].append('wide multisig: 1-of-n with the one listed key at every script position and 2-of-n with adjacent listed keys (right and wrong signature order) for n in {3,8,9,15,16,17,18,19,20}; n-of-n with all n pairs listed (list in script order and reversed) and with one pair missing')
     return dict(level="model_checking", coverage=cov, violations=r["violations"],
                 assumptions=["model: a check of (S, P) succeeds unconditionally iff the pair is listed; everything else runs as without the option (reference interpreter with real digests)",
                              "malformed = an item without a colon or with more than one colon; the empty list, a trailing comma and empty signature/key parts are not called malformed by the property and are only counted",
